@@ -34,7 +34,7 @@ fn adversarial_name(w: &mut Rng, fresh_made: usize) -> String {
         10 => "\u{ff15}".to_string(),
         11 => format!("x{}", w.below(6)),
         12 => format!("f{}", (1u64 << 30) - 2 + w.below(4) as u64),
-        13 => format!("{}", (1u64 << 30) - 1 - w.below(2) as u64),
+        13 => format!("{}", (1u64 << 30) + 1 - w.below(4) as u64),
         14 => format!("f{}", u32::MAX as u64 + w.below(3) as u64 - 1),
         _ => ["a", "b", "fx", "ff1", "F1", "f1x", "1f", "$x", "f-1", "f 1"][w.below(10)].to_string(),
     }
@@ -106,7 +106,30 @@ impl Check for SlotCheck {
         run.set("threads", threads as i64);
         let maxops = if tier == Tier::Quick { 12 } else { 30 };
         let mut total = 0;
+        // (own stream) ladder: a thread starts by spelling `f<T>` far above its fresh counter (0 in a new
+        // thread), then climbs towards it with nearer names `f<step>`, `f<2 step>`, ..., `f<T-1>` and calls
+        // fresh: the far name has to stay reserved however far away it was when it was spelled
+        let mut lr = Rng::stream(seed, "ladder");
+        let ladder_thread = if lr.chance(1, 6) { lr.below(threads) } else { usize::MAX };
         for t in 0..threads {
+            if t == ladder_thread {
+                let d = *lr.pick(&[300u64, 5_000, 70_000, 1_100_000, 3_000_000, 20_000_000]);
+                let rungs = *lr.pick(&[2u64, 3, 4, 6]);
+                let step = d / rungs + 1;
+                let via_parser = lr.below(2) as i64;
+                run.ops.push(Op::new("named").i(t as i64).i(via_parser).s(&format!("f{d}")));
+                total += 1;
+                let mut j = step;
+                while j < d - 1 {
+                    run.ops.push(Op::new("named").i(t as i64).i(via_parser).s(&format!("f{j}")));
+                    total += 1;
+                    j += step;
+                }
+                run.ops.push(Op::new("named").i(t as i64).i(via_parser).s(&format!("f{}", d - 1)));
+                run.ops.push(Op::new("fresh").i(t as i64));
+                run.ops.push(Op::new("fresh").i(t as i64));
+                total += 3;
+            }
             let n = w.range(1, maxops);
             let mut fresh_made = 0usize;
             for k in 0..n {
